@@ -246,22 +246,22 @@ def store_pairs():
     return _store_cache['pairs']
 
 
-def corpus_pairs():
+def corpus_pairs(heavy=True):
     """store entries with an unusual feature that a past failure needed (corpus/store_corner_cases.json): always taken first"""
     f = os.path.join(VERIF, 'corpus', 'store_corner_cases.json')
     if not os.path.isfile(f):
         return []
     have = set(store_pairs())
-    return [(e['name'], e['version']) for e in json.load(open(f))['entries'] if (e['name'], e['version']) in have]
+    return [(e['name'], e['version']) for e in json.load(open(f))['entries'] if (e['name'], e['version']) in have and (heavy or not e.get('heavy'))]
 
 
-def sample_pairs(ctx, k, pred=None):
+def sample_pairs(ctx, k, pred=None, heavy=True):
     pairs = store_pairs()
     if pred:
         pairs = [p for p in pairs if pred(p)]
     if k >= len(pairs):
         return list(pairs)
-    first = [p for p in corpus_pairs() if p in set(pairs)]
+    first = [p for p in corpus_pairs(heavy) if p in set(pairs)]
     rest = [p for p in pairs if p not in set(first)]
     return first + sorted(ctx.rng.sample(rest, min(len(rest), max(k // 2, k - len(first)))))
 
